@@ -193,10 +193,20 @@ func runC08(c *an.Ctx) {
 	})
 
 	// ---- R4 normalize
+	padMax, _ := c.ConstInt("dnsserver", "responsePaddingMaxSize")
 	decide(c, "C08-R4", "dnsserver.normalize", an.DecideCfg{
-		Dom: an.Domain{"reqopt": an.Bools, "respopt": an.Bools, "do": an.Bools, "pad": an.Bools},
+		Dom: an.Domain{"reqopt": an.Bools, "respopt": an.Bools, "do": an.Bools, "pad": an.Bools, "reqpad": an.Bools},
 		OnCall: func(it *an.Interp, name string, args []an.AV) (an.AV, bool) {
 			switch {
+			case strings.HasPrefix(name, "dnsserver.findOption"):
+				// the padding option of the request: what is added after truncation must have been left room for
+				if args[0].String() != "nonnil:reqOpt" {
+					return an.Sym("padding looked up elsewhere"), true
+				}
+				if it.Feature("reqpad").IsTrue() {
+					return an.NonNil("reqPadding"), true
+				}
+				return an.Nil(), true
 			case name == "(*github.com/miekg/dns.Msg).IsEdns0":
 				switch args[0].String() {
 				case "p2":
@@ -260,9 +270,16 @@ func runC08(c *an.Ctx) {
 				return ""
 			}
 			size := "udpsize(nonnil:reqOpt)"
-			t := trunc("maxsize(p0," + size + ",p4)")
+			// padding (an option of up to 4 + 32 bytes) is added after truncation, so the limit leaves room for it
+			// exactly when padding will be added
+			willPad := f.B("pad") && f.B("reqpad")
+			limit := "maxsize(p0," + size + ",p4)"
+			if willPad {
+				limit = fmt.Sprintf("(%s - %d)", limit, 4+padMax)
+			}
+			t := trunc(limit)
 			if t < 0 {
-				return "truncation to maxDNSSize(network, client's EDNS size, max)"
+				return "truncation to maxDNSSize(network, client's EDNS size, max), less the room for the padding option when one will be added; expected " + limit
 			}
 			var opt string
 			if f.B("respopt") {
@@ -296,8 +313,8 @@ func runC08(c *an.Ctx) {
 			if setSize < 0 || setSize > t {
 				return "the response OPT to carry the client's UDP size"
 			}
-			if f.B("pad") != (padded >= 0) {
-				return "padding attempted exactly on transports with padding support"
+			if willPad != (padded >= 0) {
+				return "padding exactly on transports with padding support for requests that carry the padding option"
 			}
 			if padded >= 0 && padded < t {
 				return "padding after truncation"
